@@ -613,6 +613,16 @@ class Interp:
             return a
         # "...{}...".format(x) / sep.join(xs) with library objects: str() is applied through the interpreted __str__
         owner = getattr(f, "__self__", None)
+        if isinstance(owner, str) and getattr(f, "__name__", "") == "join" and len(args) == 1 and not kwargs:
+            items = list(self.iterate(args[0], node))
+            if any(isinstance(x, Native) for x in items):       # rule-supplied text objects among the pieces
+                parts = []
+                for i, x in enumerate(items):
+                    if i and owner:
+                        parts.append(owner)
+                    parts.append(x)
+                return self.hooks.join_parts(self, parts, node)
+            args = [items]
         if isinstance(owner, str) and getattr(f, "__name__", "") == "format":
             args = [self.to_str(a, node) if isinstance(a, (Obj, Native)) else a for a in args]
             kwargs = {k: (self.to_str(v, node) if isinstance(v, (Obj, Native)) else v) for k, v in kwargs.items()}
